@@ -90,8 +90,8 @@ func corrFlapCase(e *Env, prop, variant string, n, flaps int) {
 	}
 	probe := func(i int) error {
 		var perr error
-		for a := 0; a < 200; a++ {
-			pctx, cancel := context.WithTimeout(context.Background(), 500*time.Millisecond)
+		for a := 0; a < 60; a++ {
+			pctx, cancel := context.WithTimeout(context.Background(), 250*time.Millisecond)
 			pt := h.NewToken()
 			_, perr = cl.Node(i).RPC(pctx, &puppet.Req{Call: pt, Seq: pt, Kind: 13})
 			cancel()
